@@ -35,7 +35,11 @@ def errdisc(kinds, pid):
                     continue
                 eff = ctx.cg.call_effects(c)
                 if not (eff & want):
-                    continue
+                    # the residual of a `?` inside an inlined helper: the helper's Err, threaded to this function's
+                    # local.  It carries whatever backend failure the `?` was applied to.
+                    if not (c.name.endswith("FromResidual<std::result::Result<std::convert::Infallible, E>>>::from_residual") and t["dest"]["local"] != 0 and v.disp(bb)["kind"] in ("dropped", "discarded", "unwrap")):
+                        continue
+                    eff = set(want)
                 n_sites += 1
                 d = v.disp(bb)
                 k = d["kind"]
@@ -93,6 +97,30 @@ def errdisc(kinds, pid):
                 else:
                     res.unclassified.append(sample)
                     res.ok(sample)
+        # a closure that returns the io::Result of a backend call, handed to an adaptor that iterates over the
+        # Result itself (flat_map, map + flatten): Result's IntoIterator yields the Ok value and nothing for Err, so
+        # every failure is dropped and the sequence just gets shorter
+        from dataflow import forward_taint as _ft
+        for f in ctx.fx.fns.values():
+            v = view(ctx, f)
+            for bb, c in v.calls.items():
+                short = c.name.split("::")[-1]
+                if short not in ("flat_map", "map") or "Iterator" not in c.name or not c.closures:
+                    continue
+                for g_ in c.closures:
+                    if not is_io_result_ty(g_.locals[0]):
+                        continue
+                    eff = set()
+                    for c2 in ctx.cg.calls[g_.path]:
+                        eff |= ctx.cg.call_effects(c2)
+                    if not (eff & want):
+                        continue
+                    dropped = short == "flat_map"
+                    if short == "map" and not c.term["dest"]["proj"]:
+                        T = _ft(f, {c.term["dest"]["local"]}, through_calls=True)
+                        dropped = any(c3.name.split("::")[-1] == "flatten" and "Iterator" in c3.name and c3.term["args"] and op_local(c3.term["args"][0]) in T for c3 in v.calls.values())
+                    if dropped:
+                        res.fail(Finding(res.rule, "%s/%s/result-flattened/%s" % (res.rule, f.path, short), "the closure handed to %s() returns the io::Result of a backend call (%s) and the adaptor iterates over that Result: an Err yields no element, so the failure is dropped and everything after it shifts down" % (short if short == "flat_map" else "map().flatten", ",".join(sorted(eff & want))), f, c.term["span"]))
         res.floor("fallible backend call sites", n_sites, ctx.table("floors").get("errdisc_" + pid, 0))
         return res
     return run
@@ -686,5 +714,78 @@ def dirtyrange(pid):
                     else:
                         res.fail(Finding(res.rule, "R-DIRTYRANGE/%s/%s-not-a-minimum" % (f.path, fld), "the write-back starts at the recorded bound `%s`, but none of the %d stores to it takes its previous value into account (no minimum, no comparison with it): a write that lands in front of an earlier one in the same window is never written back" % (fld, len(stores)), f, c.term["span"]))
         res.floor("write-back calls", n, ctx.table("floors").get("dirtyrange_sites", 0))
+        return res
+    return run
+
+
+def _err_arm_verdict(f, v, bb):
+    """For a matched Result: False when the Err arm leaves with an error on every way out, "continues" when it never
+    reports one, "partial" when one way out reaches a return without reporting."""
+    pg = v.pg
+    errs = v.err_nodes(bb)
+    reach = pg.reach(errs)
+    sets_err = False
+    for n in reach:
+        if n[0] == "s":
+            st = f.blocks[n[1]]["stmts"][n[2]]
+            if st["s"] == "assign" and st["place"]["local"] == 0 and st["rv"]["r"] == "aggregate" and st["rv"].get("variant") == "Err":
+                sets_err = True
+        if n[0] == "t":
+            tt = f.blocks[n[1]]["term"]
+            if tt["t"] == "call" and (callee_name(tt) or "").endswith("FromResidual<std::result::Result<std::convert::Infallible, E>>>::from_residual"):
+                sets_err = True
+    if not sets_err and any(n in reach for n in v.all_err_nodes()):
+        sets_err = True
+    if not sets_err:
+        return "continues"
+    quiet = pg.reach(errs, set(v.all_err_nodes()) | {("t", bb)})
+    if any(r in quiet for r in pg.returns()):
+        return "partial"
+    return False
+
+
+def refusalkept(pid):
+    """R-REFUSALKEPT: a refusal made by a callee reaches the caller of the API.  Every call of a crate function that
+    returns io::Result and has no backend effect (so R-ERRDISC does not look at it: the lookups, the path normaliser,
+    the name validation, walk_storage / read_storage) has its result propagated, returned or matched; a result that
+    is dropped, unwrapped or put through `.ok()`, `.unwrap_or_default()`, `.is_ok()` and the like turns `InvalidInput`
+    for an escaping path or `NotFound` for a missing one into an Ok answer."""
+    def run(ctx):
+        res = RuleResult("R-REFUSALKEPT(%s)" % pid, "no io::Result of an effect-free crate function (a refusal: NotFound / InvalidInput / AlreadyExists) is dropped, unwrapped or discarded through ok / unwrap_or* / is_ok / is_err")
+        allowed = ctx.table("errdisc").get("allowed_refusal_drop", {})
+        n = 0
+        for f in ctx.fx.fns.values():
+            if f.d.get("is_test") or "::tests::" in f.path:
+                continue
+            if not is_io_result_ty(f.locals[0]):
+                continue        # a predicate (exists, is_stream, is_storage) has no way to report a refusal but `false`
+            v = view(ctx, f)
+            for bb, c in v.calls.items():
+                t = c.term
+                if t["dest"]["proj"] or not c.targets:
+                    continue
+                if not is_io_result_ty(f.locals[t["dest"]["local"]]):
+                    continue
+                eff = ctx.cg.call_effects(c)
+                if eff & {"io_read", "io_write", "io_seek", "io_flush"}:
+                    continue
+                n += 1
+                d = v.disp(bb)
+                k = d["kind"]
+                sample = {"function": f.path, "callee": c.name, "disposition": k, "line": c.line}
+                if k in ("dropped", "discarded", "unwrap"):
+                    a = allowed.get(f.path)
+                    if a and c.name.endswith(a["callee_suffix"]):
+                        res.ok({**sample, "listed_exception": a["reason"]})
+                        continue
+                    what = {"dropped": "is dropped unused", "discarded": "is discarded through .%s()" % d.get("detail"), "unwrap": "is unwrapped (panics instead of reporting)"}[k]
+                    res.fail(Finding(res.rule, "%s/%s/%s/%s" % (res.rule, f.path, k, c.name), "the io::Result of %s %s: a refusal made there (InvalidInput for an invalid or escaping path, NotFound for a missing one) never reaches the caller" % (c.name, what), f, t["span"]))
+                elif k == "matched" and _err_arm_verdict(f, v, bb):
+                    res.fail(Finding(res.rule, "%s/%s/err-arm-returns-ok/%s" % (res.rule, f.path, c.name), "the Err outcome of %s is matched (or mapped) and the function then goes on to an Ok result: a refusal made there (InvalidInput for an invalid or escaping path, NotFound for a missing one) never reaches the caller" % c.name, f, t["span"]))
+                else:
+                    res.ok(sample, nontrivial=(k in ("try", "matched")))
+                    if k not in ("try", "returned", "matched"):
+                        res.unclassified.append(sample)
+        res.floor("effect-free fallible call sites", n, ctx.table("floors").get("refusalkept_sites", 0))
         return res
     return run
